@@ -1,8 +1,30 @@
 """C11  Settings persist forward: cd, env (act / non-act), timeout.
 
-K1  `_expand_vars`: every value of bounded length over {$ { } A _ x} (+ B 1 in the thorough tier),
-    every value of the variables A / x it can name: equal to a regex-free reference expansion
-    (unknown name => empty string, a substituted value is not expanded again).
+K1  `_expand_vars`: every value of bounded length over {$ { } A _ x}, every value of the variable A
+    it can name (A unset, or any text of <= 2 characters over the same alphabet, so that a
+    substituted text may itself look like a reference): equal to a regex-free reference expansion
+    (unknown name => empty string, `${}` is no reference, a substituted value is not expanded again,
+    the longest name is taken); the environment is not changed by the expansion.
+K2  one `env` instruction (set / unset, no -of / -of act / -of !act) parsed by the REAL parser from
+    a test-case text and executed through `instruction.main` the way each phase's executor calls
+    it, on REAL InstructionSettings / SetupSettingsBuilder objects in a SYMBOLIC state: each set
+    unset (= inherit) or a dict whose variable A is unset or any text; the default environment
+    likewise.  Reference: which set changes (act set only in [setup]), populate-if-unset from the
+    default getter, expansion against the set being changed, the other set untouched, the two
+    sets never the same object, timeout untouched.  A few two-instruction sequences.
+    `timeout = K0` for EVERY integer K0 (negative: rejected by validation, main not reached) and
+    `timeout = none`: the settings hold exactly that value afterwards, the environment untouched.
+K3  histories through the REAL main program (`MainProgram.execute([FILE])`, in process): a
+    generated test case with k of the 17 instruction forms (3 cd, 2 timeout, 12 env) placed in
+    setup / before-assert / assert / cleanup in every way, a probe process (started by `$`, `%`,
+    `run`) before and after every one of them and at the start of every phase, and the act phase
+    process.  `subprocess` is a recording stand-in: what every probe would see (environment,
+    timeout, current directory) is compared with a reference state machine (act set, non-act set,
+    timeout, cwd).  Also: the value of a variable coming from a program (that program is a process
+    too); the act phase process started by each of the four kinds of actor; and, with CrossHair
+    tracing ON, fixed histories with SYMBOLIC timeouts (literals K0, K1 through the real parser)
+    and a SYMBOLIC initial value of the variable A in the environment Exactly is started with.
+                                                              [selector] except K3:symbolic
 """
 from typing import List
 
@@ -32,8 +54,10 @@ def _in_alphabet(s: str, alphabet: str) -> bool:
 
 def _pre_k1(value: str, va: str, a_set: bool, x_set: bool) -> bool:
     case = ob.case()
-    return (len(value) == case['len'] and _in_alphabet(value, case.get('alphabet', K1_ALPHABET))
-            and len(va) <= case['valen'] and _in_alphabet(va, case.get('alphabet', K1_ALPHABET)))
+    if not (len(value) == case['len'] and _in_alphabet(value, K1_ALPHABET)
+            and len(va) <= case['valen'] and _in_alphabet(va, K1_ALPHABET)):
+        return False
+    return case.get('first') is None or value[0] in case['first']
 
 
 def k1_expand(value: str, va: str, a_set: bool, x_set: bool) -> bool:
@@ -270,13 +294,26 @@ def probe(phase: str, i: int) -> str:
     return 'probe-%s-%d' % (phase, i)
 
 
-def case_text(history) -> str:
+# the act phase process started by each kind of actor: ([conf] lines, [act] lines)
+ACTORS = {
+    'command-shell': ((), ('$ probe-act',)),
+    'command-system-program': ((), ('% probe-act',)),
+    'file-interpreter': (('actor = file % probe-act',), ('act-source.txt',)),
+    'source-interpreter': (('actor = source % probe-act',), ('source line',)),
+}
+FILES_IN_HOME = (('act-source.txt', 'source\n'),)
+
+
+def case_text(history, actor: str = 'command-shell') -> str:
     """history: sequence of (form index, phase index into PHASES), phases non-decreasing."""
     lines = []
+    if ACTORS[actor][0]:
+        lines.append('[conf]')
+        lines.extend(ACTORS[actor][0])
     for ph in ALL_PHASES:
         lines.append('[%s]' % ph)
         if ph == 'act':
-            lines.append('$ probe-act')
+            lines.extend(ACTORS[actor][1])
             continue
         if ph == 'setup':
             lines.extend(PRELUDE)
@@ -376,7 +413,7 @@ def _pre_k3(f0: int, p0: int, f1: int, p1: int, f2: int, p2: int) -> bool:
         return expected_observations(h, {}, '/R/W/S/act') is not None
 
 
-def run_history(h, recorder=None):
+def run_history(h, recorder=None, actor: str = 'command-shell'):
     import os
     from harness import _C11_lib as L
     saved = {n: os.environ.get(n) for n in ('A', 'B', 'P', 'U')}
@@ -387,7 +424,7 @@ def run_history(h, recorder=None):
         initial = dict(os.environ)
         if recorder is None:
             recorder = L.Recorder(stdout_of=lambda tag: VALUE_PROGRAM_OUTPUT if tag == 'probe-value' else '')
-        run = L.run_main_program(case_text(h), recorder)
+        run = L.run_main_program(case_text(h, actor), recorder, FILES_IN_HOME)
     finally:
         for n, v in saved.items():
             if v is None:
@@ -397,13 +434,18 @@ def run_history(h, recorder=None):
     return initial, run
 
 
+def _tag(command_line: str) -> str:
+    """the probe's name: the program of the command line (interpreter actors append the source file)"""
+    return command_line.split(' ')[0]
+
+
 def check_run(h, initial, run, ints=None, bug: int = 0) -> bool:
     if run.exception is not None or run.rc != 0 or run.ident != 'PASS' or len(run.sandbox_roots) != 1:
         return False
     if run.environ_after != run.environ_before:  # the environment of Exactly itself is not the medium
         return False
     want = expected_observations(h, initial, run.act_dir, ints, bug)
-    got = [(c.tag, c.env, c.timeout, c.cwd) for c in run.calls]
+    got = [(_tag(c.tag), c.env, c.timeout, c.cwd) for c in run.calls]
     return want is not None and _normalized(got) == _normalized(want)
 
 
@@ -420,7 +462,7 @@ def k3_history(f0: int, p0: int, f1: int, p1: int, f2: int, p2: int) -> bool:
     h = _history_of((f0, p0, f1, p1, f2, p2), k)
     h = tuple((ob.concrete_int(f, ranges[i][0], ranges[i][1] - 1), phases[i]) for i, (f, p) in enumerate(h))
     with L.untraced():
-        initial, run = run_history(h)
+        initial, run = run_history(h, None, case.get('actor', 'command-shell'))
         ok = check_run(h, initial, run, None, case.get('oracle_bug', 0))
     return ob.post(ok)
 
@@ -457,7 +499,7 @@ def k3_symbolic(t0: int, t1: int, a: str) -> bool:
     try:
         recorder = L.Recorder(inherited_environ=lambda: started_with,
                               stdout_of=lambda tag: VALUE_PROGRAM_OUTPUT if tag == 'probe-value' else '')
-        run = L.run_main_program(case_text(h), recorder)
+        run = L.run_main_program(case_text(h, case.get('actor', 'command-shell')), recorder, FILES_IN_HOME)
     finally:
         predefined_properties.os = real_os
         xly.uninstall_int_placeholders()
@@ -525,6 +567,8 @@ STUB_SUBPROCESS = ('subprocess module at process_executor / preprocessor: record
                    'env= (None: os.environ at that moment), timeout=, cwd= (absent: os.getcwd() at that moment); exit code 0')
 STUB_UNTRACED = ('CrossHair tracing is suspended (crosshair.tracers.NoTracing) once every selector has been made concrete: the real '
                  'program runs natively on concrete data, the solver enumerates the selector space exhaustively')
+STUB_OS_ENVIRON = ('`os` as seen by predefined_properties.os_environ_getter: object whose `environ` is a dict with a symbolic value; '
+                   'a child started with env=None is taken to inherit that same dict')
 STUB_INT = 'python_evaluate -> placeholder table (the integer literal K0 denotes the symbolic integer)'
 STUB_GETTER = 'default_environ_getter argument of InstructionSettings: returns a fresh copy of a dict with symbolic contents'
 
@@ -538,20 +582,24 @@ def obligations(tier: str) -> List[Ob]:
     # ---- K1
     lens = (0, 1, 2, 3, 4, 5) if tier == 'quick' else (0, 1, 2, 3, 4, 5, 6)
     for n in lens:
-        obs.append(Ob(name='K1:expand:len%d' % n, fn='k1_expand', case=dict(len=n, valen=2), kernel='K1',
-                      bound='every value of exactly %d characters over {$ { } A _ x}; variable A unset or any text of <= 2 '
-                            'characters over the same alphabet, x unset or "X", Ax = "L"' % n,
-                      timeout=900, real=REAL_K1, entry='_expand_vars (reached from `env NAME = VALUE`, see K2/K3)'))
+        firsts = [None] if n < 5 else (['$', '{}', 'A_x'] if n == 5 else list(K1_ALPHABET))
+        for first in firsts:
+            obs.append(Ob(name='K1:expand:len%d%s' % (n, '' if first is None else ':first-' + first), fn='k1_expand',
+                          case=dict(len=n, valen=2, first=first), kernel='K1',
+                          bound='every value of exactly %d characters over {$ { } A _ x}%s; variable A unset or any text of <= 2 '
+                                'characters over the same alphabet, x unset or "X", Ax = "L"' % (
+                                    n, '' if first is None else ' with first character in {%s}' % ' '.join(first)),
+                          timeout=900, real=REAL_K1, entry='_expand_vars (reached from `env NAME = VALUE`, see K2 / K3)'))
     for bug, what in ((1, 'unknown name kept verbatim'), (3, '${} taken as a reference')):
         obs.append(Ob(name='K1:seeded-oracle-error-%d' % bug, fn='k1_expand', case=dict(len=4, valen=1, oracle_bug=bug),
                       kernel='K1', bound='seeded: ' + what, timeout=300, expect=ob.REFUTE))
     # ---- K2
     singles = [(f,) for f in range(len(K2_FORMS))]
-    pairs = [(0, 1), (1, 1), (4, 1), (1, 3), (3, 2), (2, 4), (4, 0), (5, 3)]
-    if tier == 'thorough':
-        pairs = [(f, g) for f in range(len(K2_FORMS)) for g in range(len(K2_FORMS))]
-    phases = ('setup', 'before-assert') if tier == 'quick' else K2_PHASES
+    # sequences follow from the single steps (every reachable pair of sets is among the symbolic initial states, and the two
+    # sets are checked not to be the same object); a few pairs are run all the same
+    pairs = [(1, 3), (4, 1)] if tier == 'quick' else [(0, 1), (1, 1), (4, 1), (1, 3), (3, 2), (2, 4), (4, 0), (5, 3)]
     for forms in singles + pairs:
+        phases = (('setup', 'before-assert') if tier == 'quick' else K2_PHASES) if len(forms) == 1 else ('setup',)
         obs.append(Ob(name='K2:env:' + _k2_form_name(forms), fn='k2_apply', case=dict(forms=forms, phases=phases), kernel='K2',
                       bound='instruction(s) `env{T} %s`, every T in {none, -of act, -of !act} per instruction, in each of %s; '
                             'non-act set / act set: unset (inherit) or a dict with B set and A unset or any text of <= 2 '
@@ -571,28 +619,140 @@ def obligations(tier: str) -> List[Ob]:
                   bound='seeded: 0 is claimed to be rejected', timeout=300, expect=ob.REFUTE))
     # ---- K3
     import itertools
-    stubs_k3 = (STUB_SUBPROCESS, 'counting sandbox resolver (MainProgram constructor argument)', 'in-memory stdout/stderr', STUB_UNTRACED)
+    stubs_k3 = (STUB_SUBPROCESS, 'counting sandbox resolver (MainProgram constructor argument)', 'in-memory stdout/stderr')
     outside_k3 = ('histories in which a `cd` names a directory that does not exist (the case ends HARD_ERROR there)',
                   'that a started child really receives env= / cwd / timeout= (contract of subprocess.call)',
                   'changing directory inside a child process (OS behaviour, no code of exactly_lib involved)')
+    probes = ('a probe process (started by `$`, `%` or `run`) before and after every one of them and at the start of every phase, '
+              'and the act phase process; observed: environment, timeout, current directory')
+
+    def k3(name, case, forms_text, expect=ob.CONFIRM, timeout=1200):
+        phases = case['phases']
+        return Ob(name=name, fn='k3_history', case=case, kernel='K3', selector=True,
+                  bound='every history of %d instruction(s) %s placed in [%s]; %s' % (
+                      case['k'], forms_text, '], ['.join(PHASES[p] for p in phases), probes),
+                  timeout=timeout, real=REAL_K3, stubs=stubs_k3 + (STUB_UNTRACED,), outside=outside_k3, expect=expect,
+                  entry='MainProgram.execute([FILE]) on the generated test-case file')
+
+    base_text = 'out of the %d forms %s' % (NBASE, [f[0] for f in FORMS[:NBASE]])
+    prog_text = 'one of them out of %s, the others %s' % ([f[0] for f in FORMS[NBASE:NPROG]], base_text)
     kmax = 2 if tier == 'quick' else 3
     for k in range(0, kmax + 1):
         for phases in itertools.combinations_with_replacement(range(len(PHASES)), k):
-            splits = [None] if k < 3 else [(lo, min(lo + 6, len(FORMS))) for lo in range(0, len(FORMS), 6)]
-            for sp in splits:
-                case = dict(k=k, phases=phases)
-                name = 'K3:history:k%d:%s' % (k, '+'.join(PHASES[p] for p in phases) or 'none')
-                if sp is not None:
-                    case['forms0'] = sp
-                    name += ':f%d-%d' % (sp[0], sp[1] - 1)
-                obs.append(Ob(name=name, fn='k3_history', case=case, kernel='K3', selector=True,
-                              bound='every history of %d instruction(s) out of the %d forms %s placed in [%s]%s, a probe process '
-                                    'before and after every one of them, at the start of every phase, and as the act phase' % (
-                                        k, len(FORMS), [f[0] for f in FORMS], '], ['.join(PHASES[p] for p in phases),
-                                        '' if sp is None else ' (first form: index %d..%d)' % (sp[0], sp[1] - 1)),
-                              timeout=1200, real=REAL_K3, stubs=stubs_k3, outside=outside_k3,
-                              entry='MainProgram.execute([FILE]) on the generated test-case file'))
-    obs.append(Ob(name='K3:seeded-oracle-error-atc-sees-non-act-set', fn='k3_history', case=dict(k=1, phases=(0,), oracle_bug=5),
-                  kernel='K3', selector=True, bound='seeded: the act process is claimed to see the non-act set', timeout=600,
-                  expect=ob.REFUTE))
+            name = 'K3:history:k%d:%s' % (k, '+'.join(PHASES[p] for p in phases) or 'none')
+            if k < 3:
+                obs.append(k3(name, dict(k=k, phases=phases), base_text))
+            else:
+                step = 6
+                for lo in range(0, NBASE, step):
+                    hi = min(lo + step, NBASE)
+                    obs.append(k3('%s:f%d-%d' % (name, lo, hi - 1), dict(k=k, phases=phases, ranges=((lo, hi), (0, NBASE), (0, NBASE))),
+                                  base_text + ' (first form: index %d..%d)' % (lo, hi - 1), timeout=2400))
+    # the value of the variable comes from a program
+    kprog = 1 if tier == 'quick' else 2
+    for k in range(1, kprog + 1):
+        for phases in itertools.combinations_with_replacement(range(len(PHASES)), k):
+            for pos in range(k):
+                ranges = tuple((NBASE, NPROG) if i == pos else (0, NBASE) for i in range(k))
+                obs.append(k3('K3:value-program:k%d:%s:pos%d' % (k, '+'.join(PHASES[p] for p in phases), pos),
+                              dict(k=k, phases=phases, ranges=ranges), prog_text))
+    # the act phase process started by every kind of actor
+    for actor in ACTORS:
+        if actor == 'command-shell':
+            continue
+        for phases in (((0,),) if tier == 'quick' else ((0,), (0, 0), (0, 1))):
+            k = len(phases)
+            obs.append(k3('K3:actor:%s:k%d:%s' % (actor, k, '+'.join(PHASES[p] for p in phases)),
+                          dict(k=k, phases=phases, actor=actor, ranges=((0, NPROG),) + ((0, NBASE),) * (k - 1)),
+                          'the first out of the %d forms %s, the others out of the first %d of these; actor %s: %s' % (
+                              NPROG, [f[0] for f in FORMS[:NPROG]], NBASE, actor, ACTORS[actor])))
+    obs.append(k3('K3:seeded-oracle-error-atc-sees-non-act-set', dict(k=1, phases=(0,), oracle_bug=5),
+                  'seeded: the act process is claimed to see the non-act set', expect=ob.REFUTE, timeout=600))
+    obs.append(k3('K3:seeded-oracle-error-timeout-ignored', dict(k=1, phases=(2,), oracle_bug=6),
+                  'seeded: `timeout` is claimed to have no effect', expect=ob.REFUTE, timeout=600))
+
+    # symbolic data through the whole program
+    def fi(text):
+        return [i for i, f in enumerate(FORMS) if f[0] == text][0]
+
+    sym = [
+        ('timeouts', (('timeout = K0', 0), ('timeout = K1', 1))),
+        ('env-timeout-env', (('env A = "${A}2"', 0), ('timeout = K0', 1), ('env B = "<${A}${U}>"', 2))),
+        ('act-nonact-timeout', (('env -of act A = "${A}2"', 0), ('env -of !act unset A', 0), ('timeout = K0', 2))),
+    ]
+    if tier == 'thorough':
+        sym += [
+            ('timeout-none-timeout', (('timeout = K0', 0), ('timeout = none', 0), ('timeout = K1', 3))),
+            ('nonact-program-timeout', (('env -of !act B = "<${A}${U}>"', 0), ('env P = -stdout-from $ probe-value', 0), ('timeout = K1', 3))),
+            ('cd-timeout-env', (('cd sub', 0), ('timeout = K0', 0), ('env A = 1', 1))),
+            ('timeouts-late', (('timeout = K0', 2), ('env -of act A = 1', 2), ('timeout = K1', 3))),
+            ('act-program', (('timeout = K1', 0), ('env -of act P = -stdout-from $ probe-value', 0), ('env unset A', 1))),
+        ]
+    tmax = 99 if tier == 'quick' else 9999
+    for name, hist in sym:
+        h = tuple((fi(t), p) for t, p in hist)
+        obs.append(Ob(name='K3:symbolic:' + name, fn='k3_symbolic', case=dict(history=h, tmax=tmax), kernel='K3',
+                      bound='the history %s; every K0, K1 in [0, %d] (integer literals through the real parser); A of the environment '
+                            'Exactly is started with: any text of <= 2 characters; %s' % (
+                                ['[%s] %s' % (PHASES[p], t) for t, p in hist], tmax, probes),
+                      timeout=900, real=REAL_K3, stubs=stubs_k3 + (STUB_INT, STUB_OS_ENVIRON), outside=outside_k3,
+                      entry='MainProgram.execute([FILE]) on the generated test-case file'))
+    obs.append(Ob(name='K3:symbolic:seeded-oracle-error', fn='k3_symbolic',
+                  case=dict(history=((fi('timeout = K0'), 0), (fi('timeout = K1'), 1)), tmax=99, oracle_bug=6), kernel='K3',
+                  bound='seeded: `timeout` is claimed to have no effect', timeout=600, expect=ob.REFUTE))
     return obs
+
+
+def selftest(tier) -> int:
+    """Concrete comparison of the reference expansion with the real one, and of the recording stand-in's
+    reading of `env=None` / `cwd` with a REAL child process."""
+    import itertools
+    import os
+    import subprocess
+    import sys
+    from exactly_lib.impls.instructions.multi_phase.environ import impl
+    n = 0
+    alphabet = '${}A_x1'
+    envs = ({}, {'A': 'va'}, {'A': '${x}', 'x': 'X'}, {'A': '${', 'x': 'X', 'Ax': 'L', '1': 'one'})
+    for length in range(0, 6 if tier == 'quick' else 7):
+        for t in itertools.product(alphabet, repeat=length):
+            v = ''.join(t)
+            for e in envs:
+                if impl._expand_vars(v, dict(e)) != ref.expand(v, dict(e)):
+                    raise AssertionError('reference expansion differs from _expand_vars on %r %r' % (v, e))
+                n += 1
+    # the assumed contract of subprocess.call: env=None => the child inherits os.environ, no cwd= => it starts in os.getcwd();
+    # a child that changes its directory does not change ours
+    from harness import _C11_lib as L
+    rec = L.Recorder()
+    os.environ['C11_SELFTEST'] = 'inherited'
+    here = os.getcwd()
+    try:
+        rec.call(['x'], env=None)
+        out = subprocess.run([sys.executable, '-c', 'import os; print(os.environ.get("C11_SELFTEST")); print(os.getcwd()); os.chdir("/")'],
+                             stdout=subprocess.PIPE, env=None).stdout.decode().split('\n')
+    finally:
+        del os.environ['C11_SELFTEST']
+    if rec.calls[0].env.get('C11_SELFTEST') != out[0] or os.path.realpath(rec.calls[0].cwd) != os.path.realpath(out[1]):
+        raise AssertionError('recording stand-in differs from a real child: %r %r' % (rec.calls[0], out))
+    if os.getcwd() != here:
+        raise AssertionError('a child changed the current directory of its parent')
+    return n + 3
+
+
+ASSUMPTIONS = [
+    'subprocess.call is the only way exactly_lib starts processes (process_executor.py, preprocessor.py); a child started with '
+    'env=None inherits os.environ and, no cwd= being given, starts in os.getcwd() of that moment; timeout= is enforced by subprocess '
+    '(C19)',
+    'reference manual, instruction `env`: "If STRING-SOURCE involves a PROGRAM, it will be executed in an environment with the '
+    'environment variables of the specified phase" - the program computing the value for `env -of act` is therefore expected to see '
+    'the ACT set (the only process besides the act phase process that does)',
+    'the default timeout is 60 seconds (reference manual)',
+]
+OUTSIDE = [
+    'changing directory inside a child process does not change the current directory of the test: behaviour of the OS (checked once, '
+    'concretely, in the self-test); no code of exactly_lib is involved',
+    '`def` (named in the title of the property, not in its statement): definition-before-use and visibility of symbols is C08',
+    'histories longer than the bound; variable names / values / directories other than those of the stated forms',
+    'cd to a directory that does not exist (HARD_ERROR; the execution protocol after a failure is C01 / C02)',
+]
